@@ -51,6 +51,36 @@ CHECKS = {
         'pairs and compared with the model rows. Part (b), nested-iteration start-up: see evidence (covered by the cycle model when built).',
    note='Trusted: Coq kernel; R axioms; hand model InterpDefs.v tied by K-matrix; extraction. Cubic exactness in theta is local (periodic unwrapping) and evaluated through the same lag4 lemma.',
    design='5/C09'),
+ 'C03': dict(
+   technique='Coq proof (per-row equality of the scattered give blocks and the gathered take row for all grid sizes, by block filtering + ring; Dirichlet rows; coefficient admissibility) + complete per-configuration matrix correspondence of ResidualGive/ResidualTake',
+   text='For every nr >= 4, ntheta = 2Mc >= 4 with pi-periodic spacings, every coefficient array, both boundary modes and every vector: the '
+        'row the give kernel accumulates equals the documented take row (all seven row classes incl. across the origin). The real '
+        'ResidualGive (sequential and parallel path) and ResidualTake matrices are extracted on random grids x 4 geometries x 7 '
+        'profiles x cache flags x 2 levels and compared with the model rows in exact rationals; cached vs fresh coarse coefficients '
+        'are compared bitwise.',
+   note='Trusted: Coq kernel; R axioms; hand model StencilDefs.v tied by K-matrix; extraction; LevelCache plumbing (cached = recomputed) is checked on the implementation, not proved.',
+   design='5/C03'),
+ 'C04': dict(
+   technique='Coq proof that both assembly targets are one operator (C03) and that storage order is irrelevant (C16) + row-by-row correspondence of the assembled CSR matrices (guarded friend accessor) + residual-checked direct solves',
+   text='PARTIAL. Theorems: the give-assembly and take-assembly targets are the same linear operator; the LU input does not depend on slot '
+        'order. Checked on every run: every CSR row of both real direct solvers equals the model operator row (exact rationals), columns '
+        'are distinct within rows, solveInPlace has zero residual (<= 1e-10 relative) under the independent residual operator for unit, '
+        'random and huge-dynamic-range right-hand sides, and both strategies return the same solution.',
+   note='Not proved: A(solve b)=b for the sparse LU (C16 partial) and rounding. Hook H2 (friend access) used to read solver_matrix_.',
+   design='5/C04'),
+ 'C05': dict(
+   technique='Coq proof over the scattered-block bilinear form: per-node symmetry (ring), per-node non-negativity (weighted Cauchy-Schwarz + 2x2 discriminant), summed over any node list; discriminant identity 4 arr att - art^2 = alpha^2',
+   text='For every grid and coefficient array: <A x,y> = <x,A y> on vectors vanishing on Dirichlet nodes, and <A x,x> >= 0 under the '
+        'inequalities proved for every invertible mapping. PARTIAL: strict definiteness is evaluated numerically (Rayleigh quotients of '
+        'the extracted matrices), and across the origin non-negativity is proved only for art(0,.)=0 (F9).',
+   note='Trusted: Coq kernel; R axioms; model tied by the K-matrix of C03 (the matrices the theorems are about are the ones compared).',
+   design='5/C05'),
+ 'C02': dict(
+   technique='Coq proof of the discrete identities behind the order (rhs weight = mass weight, zero row sums of the diffusion part with the exact across-origin defect, Richardson algebra) + operator correspondence',
+   text='PARTIAL: the convergence order itself is asymptotic analysis and is not a theorem; listed as outside the technique in DESIGN.md section 8. '
+        'The identities proved are about the same model rows that are compared with the real operator on every run.',
+   note='Trusted: Coq kernel; R axioms; K-matrix of C03.',
+   design='5/C02'),
 }
 NA_REASON = 'check not built yet in this revision of /verif (design in DESIGN.md section 5); not claimed'
 
